@@ -17,7 +17,9 @@
 #include <bxdecay0/genbbsub.h>
 
 #include "../engine/vf.hpp"
+#include "../engine/redzone.hpp"
 #include "refdict.inc"
+#include "reflow.inc"
 #include "catalog.hpp"
 #include "schemes.hpp"
 
@@ -265,12 +267,15 @@ static Res c03_predicate(const Cfg & c, const bxdecay0::event & e, const G & g)
 struct GenRun
 {
   std::unique_ptr<G> g; Tape itape; bool accepted = false; std::string reject;
+  ~GenRun() { if (g) vf::redzones(g->get_bb_params(), false); }
 };
 static void init_gen(GenRun & gr, const Cfg & c, uint64_t iseed)
 {
+  if (gr.g) vf::redzones(gr.g->get_bb_params(), false);
   gr.g.reset(new G); gr.itape = Tape(); gr.itape.seed = iseed;
   TapeRandom r(gr.itape, 0, DEV_LIMIT);
-  try { configure(*gr.g, c); gr.g->initialize(r); gr.accepted = true; }
+  // (sanitized build only) once the generator is initialised the red zones around its spectrum tables are poisoned: see engine/redzone.hpp
+  try { configure(*gr.g, c); gr.g->initialize(r); gr.accepted = true; vf::redzones(gr.g->get_bb_params(), true); }
   catch (TapeOverrun &) { gr.accepted = false; gr.reject = "init-overrun"; }
   catch (std::exception & e) { gr.accepted = false; gr.reject = e.what(); }
 }
@@ -443,6 +448,7 @@ static std::vector<Cfg> dbd_grid()
   return v;
 }
 
+static void run_low_pass(Ctx & cx, const Args & a, uint64_t seed, int shard, int nsh, bool thorough);
 static int run_c03_c04(Ctx & cx, const Args & a)
 {
   uint64_t seed = a.i("seed", 1); int shard = a.i("shard", 0), nsh = a.i("nshards", 1); bool thorough = a.s("tier", "quick") == "thorough";
@@ -495,15 +501,16 @@ static int run_c03_c04(Ctx & cx, const Args & a)
       if (c.mode == 10) e0 = it->second.Q - it->second.levelE[c.level] / 1000.0 - it->second.EK[c.level] - 2 * EMASS;
       if (e0 > 0.06) {
         Rng r(mix(seed, my * 97 + 11));
-        int nw = thorough ? 5 : 2;
+        int nw = thorough ? 6 : 2;
         for (int w = 0; w < nw; w++) {
-          Cfg cw = c; cw.win = true; int wc = thorough ? w : (w == 0 ? r.range(0, 2) : r.range(3, 4));
+          Cfg cw = c; cw.win = true; int wc = thorough ? w : (w == 0 ? r.range(0, 2) : r.range(3, 5));
           if (wc == 0) { cw.emin = std::round(r.uniform(0.05, 0.45) * e0 * 1000) / 1000; cw.emax = std::round(r.uniform(0.55, 0.95) * e0 * 1000) / 1000; }
           else if (wc == 1) { cw.emin = 0.0; cw.emax = 0.02 + std::round(r.uniform(0.01, 0.04) * 1000) / 1000; }
           else if (wc == 2) { cw.emin = std::round((e0 - 0.02 - r.uniform(0, 0.1) * e0) * 1000) / 1000; cw.emax = std::round((e0 + 0.5) * 1000) / 1000; }
           else if (wc == 3) { cw.emin = std::round(r.uniform(0.2, 0.7) * e0 * 1000) / 1000; cw.emax = std::numeric_limits<double>::quiet_NaN(); } // lower bound only
-          else { cw.emin = std::numeric_limits<double>::quiet_NaN(); cw.emax = std::round(r.uniform(0.3, 0.8) * e0 * 1000) / 1000; }          // upper bound only
-          static const char * wn[] = {"interior", "low-sliver", "high-sliver", "emin-only", "emax-only"};
+          else if (wc == 4) { cw.emin = std::numeric_limits<double>::quiet_NaN(); cw.emax = std::round(r.uniform(0.3, 0.8) * e0 * 1000) / 1000; }          // upper bound only
+          else { cw.emin = -std::round(r.uniform(0.01, 1.0) * 1000) / 1000; cw.emax = std::round(r.uniform(0.3, 0.8) * e0 * 1000) / 1000; }                  // negative lower bound (means 0)
+          static const char * wn[] = {"interior", "low-sliver", "high-sliver", "emin-only", "emax-only", "negative-emin"};
           if (wc >= 3 || cw.emin < cw.emax) run_config(cx, cw, seed, nev, is04, wn[wc]);
         }
         if (!is04 && (thorough || h % 4 == 0)) run_nested(cx, c, seed);
@@ -511,6 +518,7 @@ static int run_c03_c04(Ctx & cx, const Args & a)
     }
   }
   if (!is04) run_hopping(cx, seed, thorough, mine);
+  if (a.s("lowpass", "1") != "0") run_low_pass(cx, a, seed, shard, nsh, thorough);
   return 0;
 }
 
@@ -687,6 +695,67 @@ static int run_c05(Ctx & cx, const Args & a)
   return 0;
 }
 
+// ------------------------------------------------------------------ cascade-level pass (C03: energy closure, C04: validity)
+// Every de-excitation routine <Nuclide>low(levelkeV) is called directly for every entry level the reference text tabulates: the cascade of a daughter
+// level never depends on the primary leptons, which cost most of a double-beta event, so tens of thousands of steered tapes per level are affordable.
+// C03 oracle: whatever path is taken, the emitted energy (gamma energies + electron kinetic energies + X-rays, + 1.022 MeV per positron) adds up to the
+// entry level energy (tolerance 3 keV, as for whole events).  C04 oracle: the validity predicate on the particles (species, finite momenta, times).
+static Res low_case(const std::string & prop, const Cfg & c, Tape & tape, size_t & used, bxdecay0::event & ev)
+{
+  Res r; auto fail = [&](const std::string & cls, const std::string & m) { if (r.ok) { r.ok = false; r.cls = cls; r.msg = m; } };
+  ev = bxdecay0::event(); ev.set_time(0.0); ev.set_generator(c.name);
+  TapeRandom rnd(tape, 0, DEV_LIMIT);
+  try { REF_LOW.at(c.name).fn(rnd, ev, c.level); }
+  catch (TapeOverrun &) { used = rnd.pos; fail("unbounded", "cascade consumed more than " + std::to_string(DEV_LIMIT) + " deviates"); return r; }
+  catch (std::exception & e) { used = rnd.pos; fail("exception", std::string("cascade raised: ") + e.what()); return r; }
+  used = rnd.pos;
+  const auto & ps = ev.get_particles();
+  if (prop == "C04") {
+    if (ps.size() > 100) fail("too-many", "cascade has " + std::to_string(ps.size()) + " particles (>100)");
+    if (c.level > 0 && ps.empty()) fail("empty", "no particle although the entry level is " + std::to_string(c.level) + " keV");
+    double tprev = 0;
+    for (size_t i = 0; i < ps.size(); i++) {
+      const auto & p = ps[i]; int code = (int)p.get_code();
+      if (!(code == 1 || code == 2 || code == 3)) fail("species", "cascade particle " + std::to_string(i) + " has code " + std::to_string(code));
+      if (!std::isfinite(p.get_px()) || !std::isfinite(p.get_py()) || !std::isfinite(p.get_pz())) { fail("momentum-nonfinite", "cascade particle " + std::to_string(i) + " has non-finite momentum"); continue; }
+      double k = kin(p); if (!(k >= 0) || k > c.level / 1000.0 + 0.003) fail("energy-range", "cascade particle " + std::to_string(i) + " kinetic energy " + jnum(k) + " MeV outside [0, level energy]");
+      double t = p.get_time(); if (!std::isfinite(t)) { fail("time-nonfinite", "cascade particle " + std::to_string(i) + " has non-finite time"); continue; }
+      if (t < 0) fail("time-negative", "cascade particle " + std::to_string(i) + " has negative time " + jnum(t));
+      if (t < tprev) fail("time-order", "cascade particle " + std::to_string(i) + " time " + jnum(t) + " < previous " + jnum(tprev));
+      tprev = t;
+    }
+  } else {
+    double evis = 0; bool finite = true;
+    for (auto & p : ps) { double k = kin(p); if (!std::isfinite(k)) finite = false; evis += k; if (p.is_positron()) evis += 1.022; }
+    if (!finite) fail("momentum-nonfinite", "cascade particle with non-finite momentum");
+    else if (std::fabs(evis - c.level / 1000.0) > 0.003) fail("cascade-budget", "energy released by the cascade " + jnum(evis) + " MeV != entry level " + jnum(c.level / 1000.0) + " MeV: " + path_sig(ev));
+  }
+  return r;
+}
+static void run_low_pass(Ctx & cx, const Args & a, uint64_t seed, int shard, int nsh, bool thorough)
+{
+  long long nlow = a.i("lowevts", thorough ? 1000000 : 30000);
+  size_t k = 0;
+  for (auto & kv : REF_LOW) {
+    if (!kv.second.fn) continue;
+    for (int lev : kv.second.levels) {
+      if ((k++ % nsh) != (size_t)shard) continue;
+      Cfg c; c.kind = "low"; c.name = kv.first; c.level = lev; c.mode = 0;
+      std::vector<double> dict; { auto d = REF_DICT.find(kv.first); if (d != REF_DICT.end()) dict = d->second; }
+      cx.rep.label("low:" + kv.first);
+      bxdecay0::event ev; Tape none;
+      for (long long e = 0; e < nlow; e++) {
+        Tape tape; tape.seed = mix(mix(seed, 0x10f), mix(k, e)); tape.prof = profile_for(splitmix64(tape.seed), cx.prop == "C04"); tape.dict = &dict;
+        breadcrumb(cx, c, none, tape);
+        size_t used = 0; Res r = low_case(cx.prop, c, tape, used, ev);
+        cx.rep.evaluations++;
+        if (!r.ok) { PropFn fn = [&](Tape & t) { size_t u; bxdecay0::event e2; return low_case(cx.prop, c, t, u, e2); }; report_failure(cx, c, none, tape, r, fn, used); continue; }
+        cx.rep.nt(c.key() + "|" + path_sig(ev));
+      }
+    }
+  }
+}
+
 // ------------------------------------------------------------------ replay
 static int run_replay(Ctx & cx, const std::string & file)
 {
@@ -699,12 +768,13 @@ static int run_replay(Ctx & cx, const std::string & file)
   std::vector<double> dict = dict_for(c); tape.dict = &dict;
   if (j.has("tape")) tape.v = jtape_read(j.at("tape"));
   Res r;
-  if (cx.prop == "C05") { size_t u; bxdecay0::event ev; r = c05_event(c, tape, u, ev); }
+  if (c.kind == "low") { auto d = REF_DICT.find(c.name); if (d != REF_DICT.end()) dict = d->second; size_t u; bxdecay0::event ev; r = low_case(cx.prop, c, tape, u, ev); printf("event=%s\n", ev_json(ev).c_str()); }
+  else if (cx.prop == "C05") { size_t u; bxdecay0::event ev; r = c05_event(c, tape, u, ev); }
   else {
     GenRun gr; uint64_t iseed = strtoull(j.s("init_tape_seed", "0").c_str(), nullptr, 10);
     gr.g.reset(new G); gr.itape.seed = iseed; if (j.has("init_tape")) gr.itape.v = jtape_read(j.at("init_tape"));
     TapeRandom ri(gr.itape, 0, DEV_LIMIT);
-    try { configure(*gr.g, c); gr.g->initialize(ri); } catch (std::exception & e) { printf("REPLAY: configuration rejected: %s\n", e.what()); return 0; }
+    try { configure(*gr.g, c); gr.g->initialize(ri); vf::redzones(gr.g->get_bb_params(), true); } catch (std::exception & e) { printf("REPLAY: configuration rejected: %s\n", e.what()); return 0; }
     if (j.has("nested_of")) { printf("nested-window finding: toallevents=%s\n", jnum(gr.g->get_to_all_events()).c_str()); return 3; }
     size_t used; bxdecay0::event ev; r = shoot_and_check(cx, c, *gr.g, tape, used, ev, qmax_for(c));
     printf("event=%s\n", ev_json(ev).c_str());
